@@ -174,6 +174,7 @@ type Engine struct {
 	outputs   []Val
 	congDone  map[string]bool
 	sumByExpr map[*EQuant][]sumInst
+	sumByExprP, sumByExprG map[*EQuant][]sumInst // instances under one enclosing Int quantifier / ground instances
 	sumFns        map[string]string
 	sortPerms     []sortPerm
 	callArgTypes  map[string]types.Type
